@@ -231,6 +231,9 @@ pub fn directed_specs() -> Vec<GSpec> {
     // zero-size data added in the same step as the sized datum whose offset they end up sharing
     push("zst-same-step", 3, vec![a(0, "a"), cl(Simple), a(2, "value"), a(23, "z"), a(25, "zd"), cl(Simple), rm(0), a(19, "t"), a(24, "m"), a(1, "w"), cl(Simple)]);
     push("zst-same-step-first", 1, vec![a(0, "a"), a(19, "t"), a(25, "zd"), a(23, "z"), a(3, "n"), a(24, "m"), cl(Simple), a(5, "tri"), a(25, "zd2"), cl(Simple)]);
+    // a zero-size datum that is strictly more aligned than every sized datum of the definition
+    push("zst-most-aligned", 3, vec![a(28, "bytes"), a(2, "n"), cl(Simple), a(24, "m"), cl(Simple), a(1, "w"), a(25, "zd"), cl(Simple)]);
+    push("zst-most-aligned-first", 1, vec![a(0, "flag"), a(1, "tag"), a(24, "marker"), cl(Append), a(2, "n"), cl(AppendRev)]);
     // a datum replaced, in one step, by a datum of another type under the same name
     push("same-name-replaced", 3, vec![a(19, "payload"), u(2, "n"), a(15, "s"), cl(Simple), rm(0), a(3, "payload"), cl(Simple), rm(2), a(21, "s"), rm(3), a(22, "payload"), cl(Simple)]);
     // removal-only steps down to an empty variant, then data again
